@@ -268,6 +268,24 @@ func (k c07) Run(c *rt.Ctx) {
 			stmt.OrderBy = stmt.OrderBy[:3]
 		}
 	}
+	if !aggregate && !closeF && !bigint && c.Case%7 == 3 {
+		// wave 14 (C07-y): the first sort key is an element of a number list that is itself a
+		// named field - its numeric type is only known by looking through the name
+		mk := []string{"int_list", "float_list", "list"}[(c.Case/7)%3]
+		l0 := gen.Call(mk, gen.Call("strlen", gen.Value()), gen.Call("strlen", gen.Key()))
+		if (c.Case/21)%2 == 0 {
+			l0 = gen.Call(mk, gen.Call("strlen", gen.Key()), gen.Bin("*", gen.Call("strlen", gen.Value()), gen.Int(3)))
+		}
+		at := int64((c.Case / 21) % 2)
+		f := c07Field{gen.IndexI(gen.Ref("l0", l0), at), "e0", 'N'}
+		fields = append(fields, c07Field{l0, "l0", 'L'}, f)
+		stmt.Fields = append(stmt.Fields, gen.Field{E: l0, Alias: "l0"}, gen.Field{E: f.e, Alias: f.name})
+		stmt.OrderBy = append([]gen.OrderItem{{Name: "e0", Desc: (c.Case/42)%2 == 0}}, stmt.OrderBy...)
+		if len(stmt.OrderBy) > 3 {
+			stmt.OrderBy = stmt.OrderBy[:3]
+		}
+		c.Rec.Inc("sort_key_element_of_a_named_list")
+	}
 	if !aggregate && len(stmt.OrderBy) > 0 && r.Chance(1, 8) {
 		// a later select field carrying the name of a sort key: the name means the FIRST field
 		nm := stmt.OrderBy[r.Intn(len(stmt.OrderBy))].Name
